@@ -20,7 +20,7 @@ func Bin() string { return os.Getenv("VERIF_CLI") }
 // Result of one process.
 type Result struct {
 	Stdout, Stderr []byte
-	Exit           int  // exit status; -1 when killed by a signal
+	Exit           int // exit status; -1 when killed by a signal
 	Signal         string
 	TimedOut       bool
 }
@@ -100,4 +100,29 @@ func Names(t map[string][]byte) []string {
 	}
 	sort.Strings(n)
 	return n
+}
+
+// ParseLibOutput splits the C driver's "<len>\n<bytes>\n" records.
+func ParseLibOutput(b []byte) ([]string, bool) {
+	var out []string
+	for len(b) > 0 {
+		i := bytes.IndexByte(b, '\n')
+		if i < 0 {
+			return out, false
+		}
+		n := 0
+		for _, c := range b[:i] {
+			if c < '0' || c > '9' {
+				return out, false
+			}
+			n = n*10 + int(c-'0')
+		}
+		b = b[i+1:]
+		if len(b) < n+1 {
+			return out, false
+		}
+		out = append(out, string(b[:n]))
+		b = b[n+1:]
+	}
+	return out, true
 }
